@@ -1,0 +1,61 @@
+//go:build verif
+
+// Contracts for package cmd, read by /verif/govc (comment-only file).
+
+package cmd
+
+// C20 (admission and release of a reload, sequential semantics: atomics are plain memory, the
+// non-blocking channel send is a nondeterministic outcome). The muting of node-failure reports is counted
+// through the begin/end hooks.
+
+//@ func restoreRejectedReloadProgress
+//@   trusted
+//@ func clearRejectedReloadProgress
+//@   trusted
+
+// A refused request (another one pending) changes nothing except the busy report: the pending flag stays
+// set and no muting scope is opened. An accepted request sets the flag and opens exactly one scope. A
+// request that cannot be queued leaves the flag clear and the scopes balanced.
+//@ func tryQueueReloadRequest
+//@   nonilcheck
+//@   dyncalls noeffect
+//@   trustframe
+//@   requires reloadPending != nil
+//@   modifies reloadPending.v
+//@   ensures old(reloadPending.Load()) ==> !result && reloadPending.Load() && calls("beginReloadProxyFailureSuppression") == 0 && calls("endReloadProxyFailureSuppression") == 0
+//@   ensures !old(reloadPending.Load()) && result ==> reloadPending.Load() && calls("beginReloadProxyFailureSuppression") == 1 && calls("endReloadProxyFailureSuppression") == 0
+//@   ensures !old(reloadPending.Load()) && !result ==> !reloadPending.Load() && calls("beginReloadProxyFailureSuppression") == 1 && calls("endReloadProxyFailureSuppression") == 1
+//@   ensures calls("restoreRejectedReloadProgress") == (result ? 0 : 1)
+
+// Release: the pending flag is cleared first, then exactly one muting scope is closed, then the busy
+// report is erased - so a request refused in between still finds its report erased.
+//@ func clearReloadPending
+//@   nonilcheck
+//@   dyncalls noeffect
+//@   trustframe
+//@   at call endReloadProxyFailureSuppression#1 assert flag != nil ==> !flag.Load()
+//@   at call clearRejectedReloadProgress#1 assert flag != nil ==> !flag.Load()
+//@   at call clearRejectedReloadProgress#1 assert calls("endReloadProxyFailureSuppression") == 1
+//@   ensures calls("endReloadProxyFailureSuppression") == 1 && calls("clearRejectedReloadProgress") == 1
+//@   ensures flag != nil ==> !flag.Load()
+
+// The manager admits on the pending flag (held until the old generation has retired), not on the active flag.
+//@ func (*reloadManager).queueReloadRequest
+//@   nonilcheck
+//@   trustframe
+//@   at call tryQueueReloadRequest#1 assert a1 == m.reloadReqs && a2 == m.reloadActive && a3 == m.reloadPending
+
+//@ func (*reloadManager).finishReloadFailure
+//@   nonilcheck
+//@   trustframe
+//@   at call clearReloadPending#1 assert a0 == m.reloadPending && !m.reloading.Load() && !m.reloadActive.Load()
+//@   ensures calls("clearReloadPending") == 1
+
+//@ func (*reloadManager).finishReloadSuccess
+//@   nonilcheck
+//@   dyncalls noeffect
+//@   trustframe
+//@   at call releaseReloadPendingAfterRetirement#1 assert a0 == m.reloadPending && !m.reloading.Load() && !m.reloadActive.Load()
+//@   ensures calls("releaseReloadPendingAfterRetirement") == 1
+//@ func (*reloadManager).takePendingRetirementDone
+//@   trusted
